@@ -7,6 +7,7 @@
 mod bus;
 mod cases;
 mod cost;
+mod elfgen;
 mod forms;
 mod gen;
 mod machine;
@@ -65,6 +66,7 @@ fn main() {
         "panic-sweep" => sweep::run_sweep(&args, true),
         "mes-cases" => mes::run_mes(&args),
         "cost-table" => cost::run_cost(&args),
+        "elf-load" => elfgen::run_elf_load(&args),
         "bus-scan" => bus::run_scan(&args),
         "bus-history" => bus::run_bus_history(&args),
         "port-replay" => bus::run_port_replay(&args),
